@@ -66,12 +66,20 @@ def _vals(res):
 
 
 # ------------------------------------------------------------------- crop_dim
-def judge_crop(ctx, start, step, n, a, b, lc, rc, with_attr, two_d):
+def _relabel(arr):
+    """Same coordinate variable (with whatever attributes earlier calls left on it), fresh unique sample values."""
+    n = arr.sizes["time"]
+    if arr.ndim == 1:
+        return arr.copy(data=np.arange(n, dtype=float) + 1)
+    return arr.copy(data=(np.arange(n, dtype=float) + 1)[:, None] * np.array([1.0, 1000.0])[None, :])
+
+
+def judge_crop(ctx, start, step, n, a, b, lc, rc, with_attr, two_d, arr=None, history=None):
     from soundevent.arrays import operations as O
 
-    arr = _mk(start, step, n, with_attr, two_d)
+    arr = _mk(start, step, n, with_attr, two_d) if arr is None else arr
     coords = np.asarray(arr.time.data)
-    spec = {"kind": "crop", "start": start, "step": step, "n": n, "a": a, "b": b, "lc": lc, "rc": rc, "attr": with_attr, "two_d": two_d}
+    spec = {"kind": "crop", "start": start, "step": step, "n": n, "a": a, "b": b, "lc": lc, "rc": rc, "attr": with_attr, "two_d": two_d, "history": history}
     try:
         res = O.crop_dim(arr, "time", start=a, stop=b, left_closed=lc, right_closed=rc)
     except Exception as e:
@@ -107,6 +115,7 @@ def judge_crop(ctx, start, step, n, a, b, lc, rc, with_attr, two_d):
         d = np.asarray(res.data)
         if not np.array_equal(d[:, 1], d[:, 0] * 1000.0):
             ctx.violate("crop:other_dims", "crop:other_dims", observed="channel columns disagree", spec=spec)
+    return res
 
 
 # ----------------------------------------------------------------- extend_dim
@@ -137,12 +146,12 @@ def _side(last, step, bound, closed, direction):
     return definite, undecided
 
 
-def judge_extend(ctx, start, step, n, a, b, lc, rc, with_attr, two_d):
+def judge_extend(ctx, start, step, n, a, b, lc, rc, with_attr, two_d, arr=None, history=None):
     from soundevent.arrays import operations as O
 
-    arr = _mk(start, step, n, with_attr, two_d)
+    arr = _mk(start, step, n, with_attr, two_d) if arr is None else arr
     coords = np.asarray(arr.time.data)
-    spec = {"kind": "extend", "start": start, "step": step, "n": n, "a": a, "b": b, "lc": lc, "rc": rc, "attr": with_attr, "two_d": two_d}
+    spec = {"kind": "extend", "start": start, "step": step, "n": n, "a": a, "b": b, "lc": lc, "rc": rc, "attr": with_attr, "two_d": two_d, "history": history}
     try:
         res = O.extend_dim(arr, "time", start=a, stop=b, fill_value=FILL, left_closed=lc, right_closed=rc)
     except Exception as e:
@@ -184,6 +193,7 @@ def judge_extend(ctx, start, step, n, a, b, lc, rc, with_attr, two_d):
                 key = "extend:lattice_points:open_end_includes_endpoint"
             ctx.violate("extend:lattice_points", key, observed={"side": name, "new_points": int(got)}, expected={"definite": d0, "undecided": u0}, spec=spec)
             return
+    return res
 
 
 # -------------------------------------------------------------- width family
@@ -338,6 +348,50 @@ def run(ctx):
                      {"kind": "extend", "start": st, "step": stp, "n": n, "a": a, "b": b, "lc": lc, "rc": rc, "attr": attr, "two_d": two_d},
                      nontrivial=stp != int(stp))
             judge_extend(ctx, st, stp, n, a, b, lc, rc, attr, two_d)
+    run_chains(ctx)
+
+
+def run_chains(ctx):
+    """Crop / extend applied to arrays that already went through an earlier crop / extend (whatever that call
+    left on the coordinate variable travels along); the second and third steps are judged on fresh labels."""
+    rng = ctx.rng
+    for _ in range(ctx.scale(250, 1200)):
+        st = rng.choice([0.0, 0.5, 10.0]); stp = rng.choice([1.0, 0.5, 0.1]); n = rng.choice([5, 10, 20])
+        attr = rng.random() < 0.7
+        arr = _mk(st, stp, n, attr, False)
+        hist = []
+        cur = arr
+        for stepno in range(rng.choice([2, 3])):
+            coords = np.asarray(cur.time.data)
+            if len(coords) < 3:
+                break
+            cst = float(coords[0])
+            op = rng.choice(["extend", "extend", "crop"])
+            lc, rc = rng.random() < 0.7, rng.random() < 0.4
+            if op == "extend":
+                kl, kr = rng.choice([0, 0, 1, 2]), rng.choice([0, 1, 2, 3])
+                off = rng.choice([0.0, 0.2, 0.5])
+                a = float(coords[0] - (kl + off) * stp) if kl or off else None
+                b = float(coords[-1] + (kr + off) * stp) if kr or off else None
+                if a is not None and a < -5:
+                    a = None
+                ctx.case(("chain", stepno, "extend", "+".join(hist) or "fresh"), {"kind": "chain", "start": st, "step": stp, "n": n, "history": list(hist), "op": "extend", "a": a, "b": b, "lc": lc, "rc": rc},
+                         nontrivial=bool(hist))
+                res = judge_extend(ctx, cst, stp, len(coords), a, b, lc, rc, attr, False, arr=_relabel(cur), history=list(hist))
+            else:
+                i, j = sorted(rng.sample(range(len(coords)), 2))
+                a, b = float(coords[i]), float(coords[j])
+                if rng.random() < 0.3:
+                    a = None
+                if rng.random() < 0.3:
+                    b = None
+                ctx.case(("chain", stepno, "crop", "+".join(hist) or "fresh"), {"kind": "chain", "start": st, "step": stp, "n": n, "history": list(hist), "op": "crop", "a": a, "b": b, "lc": lc, "rc": rc},
+                         nontrivial=bool(hist))
+                res = judge_crop(ctx, cst, stp, len(coords), a, b, lc, rc, attr, False, arr=_relabel(cur), history=list(hist))
+            if res is None:
+                break
+            hist.append(op)
+            cur = res
 
 
 def replay(ctx, w):
